@@ -200,6 +200,9 @@ Scenarios ==
                               v \in AttrVals \cup {"absent"}, op \in {"exists", "=", "~=", "|=", "^=", "$=", "*="}, nd \in AttrNeedles, ci \in BOOLEAN}
                           \cup {[tree |-> AttrTree(v), sel |-> <<One(Cmp("p", FALSE, FALSE, <<[n |-> "attr", op |-> "class", val |-> Chars(nd), ci |-> FALSE]>>))>>] :
                               v \in AttrVals \cup {"absent"}, nd \in {"ab", "AB", "b", "cd", "ab-"}}
+    \* sibling lists with text and comments between the elements x the sibling combinators (which skip whatever is not an element)
+    [] Family = "sib" -> {[tree |-> TreeOfKids(ks), sel |-> <<c>>] : ks \in {kl \in KidLists(Size) : Len(kl) >= 2},
+                             c \in {x \in Complexes(2) : Len(x.cs) = 2 /\ x.comb[1] \in {"+", "~"} /\ x.cs[1].tag # "*" /\ ~x.cs[1].cls /\ ~x.cs[2].cls /\ ~x.cs[1].id /\ ~x.cs[2].id}}
     \* deep trees: paths of 4 and 5 nodes (descendants 3 and 4 levels below), the logical pseudo-classes and the descendant / child combinators
     [] Family = "deep" -> {[tree |-> t, sel |-> <<s>>] : t \in PathTrees, s \in LogicSels \cup {c \in Complexes(2) : \A j \in 1..Len(c.comb) : c.comb[j] \in {" ", ">"}}}
     [] Family = "comb" -> {[tree |-> t, sel |-> <<s>>] : t \in TreesN(Size), s \in Complexes(Depth)}
